@@ -311,6 +311,200 @@ def frames_binding_demo(ctx, raw_behs):
     return "frames: altered expected storage value and altered success flag reported as mismatch, unaltered behaviour conforms"
 
 
+# ----------------------------------------------------------------------------------- memory / return data / precompiles
+MEMKEYS = ["class", "output", "logs", "flags", "frames"]
+
+
+def _mval(v):
+    """Value of EvmMemory.tla -> 32-byte word in hex.  sha256 / ripemd160 are oracles (hashlib)."""
+    import hashlib
+    tag = v[0]
+    if tag == "n":
+        return int(v[1]).to_bytes(32, "big").hex()
+    data = b"".join(bytes.fromhex(_mval(x)) for x in v[1])
+    if tag == "sha256":
+        return hashlib.sha256(data).hexdigest()
+    if tag == "ripemd":
+        return "00" * 12 + hashlib.new("ripemd160", data).hexdigest()
+    raise Infra("unknown value tag in EvmMemory export: %r" % (tag,))
+
+
+def _mbuf(b):
+    return [_mval(x) for x in b]
+
+
+def mem_expected(e):
+    return {"class": e["class"], "output": _mbuf(e["output"]), "logs": [[l[0], l[1], _mbuf(l[2])] for l in e["logs"]],
+            "flags": e["flags"], "frames": [[f[0], f[1], f[2], f[3], _mbuf(f[4])] for f in e["frames"]]}
+
+
+def selftest_memory(ctx):
+    r = ctx.tlc("exec", "MC_EvmMemory", cfg="MC_EvmMemory_selftest.cfg", workers=2, timeout=300, count=False,
+                label="planted spec bug stalecreate")
+    if r.invariant != "InvBufferLaw":
+        raise Infra("self-test: planted bug stalecreate was not caught by InvBufferLaw (got %s / %s)" % (r.invariant, r.error))
+
+
+def export_mem_programs(ctx, mix=False, simulate=None, depth=None, timeout=1800):
+    tier = "quick" if ctx.quick else "thorough"
+    cfg = ("MC_EvmMemory_mix_%s.cfg" if mix else "MC_EvmMemory_%s.cfg") % tier
+    r = ctx.tlc("exec", "MC_EvmMemory", cfg=cfg, workers=4, timeout=timeout, simulate=simulate, depth=depth,
+                label="memory programs" + (" mix" if mix else ""), heap="4g")
+    if r.timeout and not simulate:
+        raise Infra("TLC timed out enumerating memory programs")
+    if r.invariant or (r.error and not (simulate and r.timeout)):
+        raise Infra("spec-level counterexample or TLC error in MC_EvmMemory: %s\n%s" % (r.invariant or r.error, r.out[-3000:]))
+    behs, seen = [], set()
+    pre = '<<"MEM", "'
+    for line in r.out.splitlines():
+        if not line.startswith(pre) or not line.endswith('">>'):
+            continue
+        s = line[len(pre):-3].replace('\\"', '"').replace('\\\\', '\\')
+        if simulate:
+            if s in seen:
+                continue
+            seen.add(s)
+        behs.append(s)
+    r.out = r.out[-4000:]
+    if not behs:
+        raise Infra("no programs exported by MC_EvmMemory:\n" + r.out)
+    ctx.log("TLC MC_EvmMemory%s: %d programs (%d distinct states, %.1fs%s)" %
+            (" mix" if mix else "", len(behs), r.distinct, r.wall, ", simulation" if simulate else ", exhaustive"))
+    return behs, r
+
+
+def _run_mem(ctx, progs, label):
+    binp = build(ctx, "evmframes")
+    d = ctx.tmp("mem-" + label)
+    inp, outp = os.path.join(d, "behs.ndjson"), os.path.join(d, "obs.ndjson")
+    with open(inp, "w") as f:
+        for i, p in enumerate(progs):
+            f.write(json.dumps({"id": i, "prog": p}) + "\n")
+    rc, o = ctx.run([binp, "-mem", "-in", inp, "-out", outp], timeout=3000)
+    if rc == 3:
+        raise Infra("evmframes -mem harness error: " + o[-1500:])
+    if rc != 0:
+        if rc is not None and ("panic:" in o or "goroutine " in o):
+            rp = ctx.save_replay("returndata-panic-%s.txt" % label, o[-20000:])
+            ctx.report("returndata:panic", "real code panicked in evmframes -mem (%s): %s" % (label, o.strip().splitlines()[0:3]), rp)
+            return None
+        raise Infra("evmframes -mem failed rc=%s: %s" % (rc, o[-2000:]))
+    return outp
+
+
+def compare_mem(b, obs):
+    if "error" in obs:
+        return "returndata:runtime-error", "runtime reported an error (panic in vm/state): %s" % obs["error"]
+    exp = mem_expected(b["exp"])
+    got = {k: obs.get(k) for k in MEMKEYS}
+    if got == exp:
+        return None, None
+    diff = [k for k in MEMKEYS if got[k] != exp[k]]
+    k = diff[0]
+    e, g = exp[k], got[k]
+    if isinstance(e, list) and isinstance(g, list) and len(e) == len(g):       # show the first differing element only
+        for i, (x, y) in enumerate(zip(e, g)):
+            if x != y:
+                e, g, k2 = x, y, "%s[%d]" % (k, i)
+                break
+    else:
+        k2 = k
+    return "returndata:" + k, "real EVM differs from the reference (memory / return data / precompiles) in %s: %s expected %s, observed %s" % (
+        ",".join(diff), k2, json.dumps(e), json.dumps(g))
+
+
+def _ops(prog):
+    out = []
+
+    def walk(script):
+        for st in script:
+            out.append(st)
+            if "init" in st:
+                walk(st["init"])
+    walk(prog["a"])
+    walk(prog["b"])
+    return out
+
+
+def replay_mem_programs(ctx, raw_behs, label, stats):
+    outp = _run_mem(ctx, [json.loads(s)["prog"] for s in raw_behs], label)
+    if outp is None:
+        return
+    found = {}
+    n = 0
+    with open(outp) as f:
+        for s, line in zip(raw_behs, f):
+            b, obs = json.loads(s), json.loads(line)
+            n += 1
+            stats["replayed"] += 1
+            sig, what = compare_mem(b, obs)
+            if sig is None:
+                stats["conform"] += 1
+                ops = _ops(b["prog"])
+                a_ops = [st["op"] for st in b["prog"]["a"]]
+                if len(obs["frames"]) >= 2 and ("RDCOPY" in a_ops or "RDSIZE" in a_ops):
+                    stats["nontrivial"] += 1
+                if any(fr[3] == "rdoob" for fr in obs["frames"]):
+                    stats["rdoob"] += 1
+                if any(st["op"] == "CALL" and st["to"].startswith("P") for st in ops):
+                    stats["precompile"] += 1
+                if "CREATE2" in a_ops or "CREATE" in a_ops:
+                    stats["creates"] += 1
+                # the m3 shape: identity call, then a write to memory, then a read of the buffer
+                seen_id = seen_write = False
+                for st in b["prog"]["a"]:
+                    if st["op"] == "CALL" and st["to"] == "P4":
+                        seen_id, seen_write = True, False
+                    elif seen_id and st["op"] == "MSTORE":
+                        seen_write = True
+                    elif seen_id and seen_write and st["op"] == "RDCOPY":
+                        stats["write_after_identity_then_rdcopy"] += 1
+                        break
+                if stats["conform"] % 3001 == 7 and len(obs["frames"]) >= 2:
+                    ctx.sample({"memory_program": b["prog"], "outcome_spec_and_real_evm": {k: obs[k] for k in MEMKEYS}}, limit=7)
+                continue
+            ent = found.setdefault(sig, {"n": 0, "first": None})
+            ent["n"] += 1
+            if ent["first"] is None:
+                ent["first"] = (b, obs, what)
+    if n != len(raw_behs):
+        raise Infra("evmframes -mem returned %d outcomes for %d programs" % (n, len(raw_behs)))
+    for sig, ent in sorted(found.items()):
+        b, obs, what = ent["first"]
+        rp = ctx.save_replay("returndata-%s-%s.json" % (label, sig.replace(":", "-")),
+                             {"kind": "mem", "signature": sig, "programs_with_this_signature": ent["n"], "what": what,
+                              "behaviour": b, "expected_evaluated": mem_expected(b["exp"]), "observed": obs})
+        ctx.report(sig, "%s: %s (%d programs of batch %s); first: %s" % (sig, what[:1500], ent["n"], label, json.dumps(b["prog"])), rp)
+
+
+def mem_binding_demo(ctx, raw_behs):
+    """An altered expected memory word / buffer size must be reported as a mismatch, the unaltered behaviour conforms."""
+    pick = None
+    for s in raw_behs:
+        if '"RDSIZE"' in s and '"P4"' in s and '"RDCOPY"' in s:
+            b = json.loads(s)
+            if b["exp"]["class"] == "ok" and any(st["op"] == "RDSIZE" for st in b["prog"]["a"]) and len(b["exp"]["flags"]) >= 1:
+                pick = b
+                break
+    if pick is None:
+        raise Infra("binding demo: no suitable memory program found")
+    b1 = json.loads(json.dumps(pick))
+    b1["exp"]["frames"][0][4][2] = ["n", 7777]                      # a memory word of the root frame
+    b2 = json.loads(json.dumps(pick))
+    b2["exp"]["flags"][0][3] = 1 - b2["exp"]["flags"][0][3]
+    outp = _run_mem(ctx, [pick["prog"]] * 3, "demo")
+    obs = read_ndjson(outp)
+    r0, r1, r2 = compare_mem(pick, obs[0]), compare_mem(b1, obs[1]), compare_mem(b2, obs[2])
+    if r0[0] is not None or r1[0] != "returndata:frames" or r2[0] != "returndata:flags":
+        raise Infra("binding demonstration failed for memory programs: %s %s %s" % (r0, r1, r2))
+    return "memory: altered expected memory word and altered success flag reported as mismatch, unaltered behaviour conforms"
+
+
+def new_mem_stats():
+    return {"replayed": 0, "conform": 0, "nontrivial": 0, "rdoob": 0, "precompile": 0, "creates": 0,
+            "write_after_identity_then_rdcopy": 0}
+
+
 def replay_artefact(ctx, path):
     """--replay <artefact>: re-run one saved case."""
     art = json.load(open(path))
@@ -320,6 +514,13 @@ def replay_artefact(ctx, path):
         ctx.cov["evaluations"] = 1
         ctx.cov["distinct_nontrivial"] = st["nested"]
         ctx.cov["rule"] = "replay of one saved program"
+        ctx.sample(art["behaviour"]["prog"])
+    elif art.get("kind") == "mem":
+        st = new_mem_stats()
+        replay_mem_programs(ctx, [json.dumps(art["behaviour"])], "replay", st)
+        ctx.cov["evaluations"] = 1
+        ctx.cov["distinct_nontrivial"] = st["nontrivial"]
+        ctx.cov["rule"] = "replay of one saved memory / return data program"
         ctx.sample(art["behaviour"]["prog"])
     elif art.get("kind") == "words":
         binp = build(ctx, "evmwords")
